@@ -17,15 +17,12 @@ SEPS = ((32,), (9,), (32, 32), (13, 10), (9, 32))
 WIDE = ("azZ09_-./:=~#%@!$&*()[]{}<>|^+,;?`" + "nrtvxuUN01237abf" + " \t\r\n\x0b\x0c\x1c\x1f\x85\xa0  　"
         + "\"'\\" + "éß日本\U0001f600́\x00\x7f\x1b")
 
-_cm = None
 _got: list = []
 
 
 def _manager():
-    """One CommandManager with two registered test commands (varargs of type str / CmdArgs)."""
-    global _cm
-    if _cm is not None:
-        return _cm
+    """A fresh CommandManager with two registered test commands (varargs of type str / CmdArgs).  One per scenario: the
+    lru_cache of parse_partial is keyed by (manager, line), so earlier scenarios cannot leak into this one."""
     import types as pytypes
 
     import mitmproxy.types
@@ -42,7 +39,6 @@ def _manager():
 
     cm = command.CommandManager(pytypes.SimpleNamespace())
     cm.collect_commands(Recorder())
-    _cm = cm
     return cm
 
 
@@ -86,7 +82,7 @@ class Check(core.PropertyCheck):
     MODEL = "CmdLex"
     MON = "Mon_CmdLex"
     REQUIRED_WITNESSES = ("pt_str", "pt_raw", "q_plain", "q_empty", "q_ws", "q_dq", "q_sq", "q_bothq", "q_owsonly",
-                          "bs", "tab", "multi", "noargs", "call_checked")
+                          "bs", "tab", "multi", "noargs", "call_checked", "call_repeated", "repeat_self_quoted")
     REQUIRED_ACTIONS = ("BuildLine", "Parse", "Call")
     ASSUMPTIONS = (
         "the registered test commands (varargs of type str and of type mitmproxy.types.CmdArgs) are harness code; "
@@ -103,9 +99,9 @@ class Check(core.PropertyCheck):
         names = {k: tuple(_cps(v)) for k, v in CMD.items()}
         if tier == "quick":
             return {"Alphabet": frozenset(A_QUICK), "MaxLen": 3, "MaxLen2": 1, "Seps": frozenset(SEPS), "SepLen": 2,
-                    "CmdName": names, "ExpandTabs": False}
+                    "CmdName": names, "ExpandTabs": False, "MaxExec": 2}
         return {"Alphabet": frozenset(A_THOROUGH), "MaxLen": 4, "MaxLen2": 2, "Seps": frozenset(SEPS), "SepLen": 2,
-                "CmdName": names, "ExpandTabs": False}
+                "CmdName": names, "ExpandTabs": False, "MaxExec": 2}
 
     def model_runs(self, ctx):
         if ctx.quick:
@@ -122,11 +118,12 @@ class Check(core.PropertyCheck):
         for m in models:
             if m.graph is None:
                 continue
-            for b in m.graph.all_paths(max_depth=3):
+            for b in m.graph.all_paths(max_depth=4):
                 if len(b) < 4:
                     continue
                 st = b[0][2]
-                data = {"pt": str(st["pt"]), "args": [list(a) for a in st["args"]], "sep": list(st["sep"])}
+                data = {"pt": str(st["pt"]), "args": [list(a) for a in st["args"]], "sep": list(st["sep"]),
+                        "execs": sum(1 for step in b[1:] if step[0] == "Call")}
                 key = repr(data)
                 if key in seen:
                     continue
@@ -143,7 +140,8 @@ class Check(core.PropertyCheck):
                 pool = focus if rng.random() < 0.5 else WIDE
                 args.append(_cps("".join(rng.choice(pool) for _ in range(ln))))
             sep = [rng.choice((32, 9, 10, 13)) for _ in range(rng.choice((1, 1, 1, 2, 3)))]
-            yield core.Scenario({"pt": rng.choice(("str", "raw")), "args": args, "sep": sep}, source="random")
+            yield core.Scenario({"pt": rng.choice(("str", "raw")), "args": args, "sep": sep,
+                                 "execs": rng.choice((1, 2, 2, 3))}, source="random")
 
     def execute(self, sc):
         from mitmproxy import command_lexer
@@ -168,15 +166,16 @@ class Check(core.PropertyCheck):
             trace.append({"k": "parts", "parts": [_cps(str(p.value)) for p in parts]})
         except Exception:
             pass  # execute() below reports the failure
-        del _got[:]
-        try:
-            cm.execute(line)
-        except Exception as e:  # the property says the command is executed: an observation, not a harness failure
-            trace.append({"k": "call", "outcome": type(e).__name__, "recv": []})
-            return trace
-        if len(_got) != 1:
-            trace.append({"k": "call", "outcome": "calls:%d" % len(_got), "recv": []})
-            return trace
-        recv = [a if isinstance(a, str) else repr(a) for a in _got[0]]
-        trace.append({"k": "call", "outcome": "called", "recv": [_cps(a) for a in recv]})
+        for _ in range(int(sc.get("execs", 1))):         # the same line again on the same manager (cache hit)
+            del _got[:]
+            try:
+                cm.execute(line)
+            except Exception as e:  # the property says the command is executed: an observation, not a harness failure
+                trace.append({"k": "call", "outcome": type(e).__name__, "recv": []})
+                continue
+            if len(_got) != 1:
+                trace.append({"k": "call", "outcome": "calls:%d" % len(_got), "recv": []})
+                continue
+            recv = [a if isinstance(a, str) else repr(a) for a in _got[0]]
+            trace.append({"k": "call", "outcome": "called", "recv": [_cps(a) for a in recv]})
         return trace
